@@ -11,6 +11,7 @@ import json
 import os
 import re
 import subprocess
+import time
 from .. import core
 
 SUB = "threadqueues/sherwood_threadqueues.c"
@@ -95,7 +96,7 @@ def gen_script(rng, model, nops):
     i = 0
     while i < nops:
         i += 1
-        kind = rng.weighted([("E", 30), ("Y", 9), ("G", 20), ("T", 12), ("S", 11), ("X", 3), ("Z", 3), ("C", 3), ("D", 1), ("B", 4), ("DR", 4)])
+        kind = rng.weighted([("E", 30), ("Y", 9), ("G", 20), ("T", 12), ("S", 11), ("X", 3), ("Z", 3), ("C", 3), ("D", 1), ("B", 4), ("DR", 4), ("MC", 4)])
         s = rng.below(n)
         if kind in ("E", "Y"):
             t = pick_tid()
@@ -112,6 +113,25 @@ def gen_script(rng, model, nops):
                 f = 1 if rng.chance(1, 3) else 0
                 send("%s %d %d %d %d" % ("Y" if rng.chance(1, 6) else "E", s, t, f, rng.below(4)))
                 i += 1
+        elif kind == "MC":      # McCoy task at the tail, then pops by workers other than / equal to (shepherd 0, worker 0)
+            for _ in range(rng.range(0, 3)):
+                t = pick_tid()
+                state["mccoy"].discard(t)
+                send("E %d %d %d %d" % (s, t, 1 if rng.chance(1, 3) else 0, rng.below(4)))
+                i += 1
+            t = pick_tid()
+            state["mccoy"].add(t)
+            send("%s %d %d 3 0" % ("E" if rng.chance(3, 4) else "Y", s, t))
+            for _ in range(rng.range(1, 4)):
+                wk = rng.below(w)
+                if rng.chance(1, 8):
+                    t2 = pick_tid()
+                    state["mccoy"].discard(t2)
+                    send("Y %d %d 0 0" % (s, t2))
+                tag, res = send("G %d %d 1" % (s, wk))
+                i += 1
+                if res and res[0].isdigit():
+                    outpool.append(int(res[0]))
         elif kind == "DR":      # drain a queue by its owner (reaches the 2/1/0-element cases)
             for _ in range(rng.range(1, 8)):
                 if not state["qs"] or not state["qs"][s]["items"]:
@@ -173,6 +193,8 @@ def m1_oracle(script, impl):
     at least one when one exists, at most the desired amount, in queue order."""
     prev = None
     chunk = 0
+    nworkers = 1
+    mccoys = set()
     for k, (cmd, line) in enumerate(zip(script, impl)):
         tag, res, qs, bad = parse_line(line)
         if line.startswith("TIMEOUT") or line.startswith("CRASH"):
@@ -188,7 +210,11 @@ def m1_oracle(script, impl):
                 return k, "length accounting of queue %d is wrong after `%s`: counters (%d,%d), walk (%d,%d)" % (
                     j, cmd, q["len"], q["stl"], len(q["items"]), sum(b for _, b in q["items"]))
         c = cmd.split()
+        if c[0] in ("E", "Y"):
+            (mccoys.add if int(c[3]) & 2 else mccoys.discard)(int(c[2]))
         if c[0] == "I":
+            nworkers = int(c[2])
+            mccoys = set()
             chunk = int(c[3])
             prev = qs
             continue
@@ -228,13 +254,17 @@ def m1_oracle(script, impl):
             if c[0] == "G" and res and res[0].isdigit():
                 s = int(c[1])
                 own = prev[s]["items"]
-                if own and prev[s]["stealing"] == 0:
-                    # owner pops the tail (McCoy entries may be skipped by workers other than 0: not judged here)
-                    if own[-1][0] != int(res[0]) and int(res[0]) in [t for t, _ in own[:-1]]:
-                        mc = False
-                        # judged only when no McCoy hand-off can be involved: the tail was not re-queued at the head
-                        if not (qs[s]["items"] and qs[s]["items"][0][0] == own[-1][0]):
-                            return k, "`%s`: owner did not take the tail entry %d of its queue (took %s)" % (cmd, own[-1][0], res[0])
+                packed = s * nworkers + int(c[2])
+                got = int(res[0])
+                if own and got in [t for t, _ in own]:
+                    tail = own[-1][0]
+                    if packed != 0 and tail in mccoys and got == tail:
+                        return k, "`%s`: a worker other than (shepherd 0, worker 0) took the McCoy task %d out of the queue" % (cmd, tail)
+                    if packed != 0 and tail in mccoys and len(own) >= 2 and own[-2][0] not in mccoys:
+                        if got != own[-2][0] or not qs[s]["items"] or qs[s]["items"][-1][0] != tail:
+                            return k, "`%s`: with the McCoy task %d at the tail the worker must take the task in front of it (%d) and leave McCoy at the tail; it took %d" % (cmd, tail, own[-2][0], got)
+                    if (packed == 0 or tail not in mccoys) and got != tail and not any(t in mccoys for t, _ in own):
+                        return k, "`%s`: owner did not take the tail entry %d of its queue (took %d)" % (cmd, tail, got)
         prev = qs
     return None
 
@@ -405,6 +435,8 @@ def load_corpus():
 def run(ctx):
     rng = ctx.rng
     quick = ctx.tier == "quick"
+    phase = {}
+    tph = [time.time()]
     pr = ctx.coq_properties("Properties/Properties_C08.v")
     exe = ctx.link("c08_tqueue", ["c08_tqueue.c"], exclude=[SUB])
     drv = ctx.model_driver("c08_driver")
@@ -415,6 +447,7 @@ def run(ctx):
     evals = 0
     nontrivial = 0
 
+    phase['coq+build'] = round(time.time() - tph[0], 1); tph[0] = time.time()
     # ---------------- M1
     cm1, cprogs = load_corpus()
     nscripts = 40 if quick else 400
@@ -431,6 +464,7 @@ def run(ctx):
             mouts.append(mo)
     finally:
         model.close()
+    phase['m1-generate+model'] = round(time.time() - tph[0], 1); tph[0] = time.time()
     iouts = run_m1(ctx, exe, scripts)
     steals_multi = 0
     for sc, mo, io in zip(scripts, mouts, iouts):
@@ -460,6 +494,7 @@ def run(ctx):
             if j is not None:
                 samples.append({"mode": "m1", "before": mo[j - 1], "command": sc[j], "result": io[j]})
 
+    phase['m1-impl+compare'] = round(time.time() - tph[0], 1); tph[0] = time.time()
     # ---------------- stress (real concurrency on fake workers)
     stress_cfgs = [(2, 1, 0), (3, 2, 0), (4, 2, 1), (2, 3, 3), (5, 1, 7)] if quick else \
                   [(2, 1, 0), (2, 2, 0), (3, 2, 0), (4, 2, 1), (2, 3, 3), (5, 1, 7), (4, 4, 0), (3, 3, 2), (6, 2, 50), (2, 4, 1)]
@@ -486,6 +521,7 @@ def run(ctx):
                 mismatches.append(("stress", case))
                 rejects.append(("stress-oracle", what, case))
 
+    phase['stress'] = round(time.time() - tph[0], 1); tph[0] = time.time()
     # ---------------- live 1x1 yield order
     nprog = 60 if quick else 500
     plines = list(cprogs)
@@ -547,6 +583,7 @@ def run(ctx):
         elif len(samples) < 4 and exp.count(" ") > 8:
             samples.append({"mode": "live-1x1", "case": l, "order": got})
 
+    phase['live-1x1'] = round(time.time() - tph[0], 1); tph[0] = time.time()
     # ---------------- live need-a-steal scenarios
     ncfgs = [(2, 1, 0), (2, 2, 1), (3, 2, 0), (4, 1, 3)] if quick else \
             [(2, 1, 0), (2, 1, 1), (2, 2, 0), (2, 2, 1), (3, 2, 0), (3, 1, 2), (4, 1, 3), (4, 2, 0), (2, 3, 50), (6, 1, 0), (3, 3, 1)]
@@ -598,26 +635,47 @@ def run(ctx):
                 if len(samples) < 6 and K >= 3:
                     samples.append(dict(case, output=o[:200]))
 
-    # ---------------- diagnostic: McCoy re-queue starvation on a multi-worker shepherd (timing dependent; never decides pass/fail)
-    mcfgs = [(2, 2)] if quick else [(1, 2), (2, 2), (1, 4), (3, 2)]
+    phase['live-need-steal'] = round(time.time() - tph[0], 1); tph[0] = time.time()
+    # ---------------- McCoy hand-over on multi-worker shepherds: tasks busy-wait with qthread_yield() for main, main yields itself
+    # (judged on completion only: main must get its k yields through before the rescue timer; latency is recorded, not judged)
+    mcfgs = [(1, 2), (2, 2)] if quick else [(1, 2), (2, 2), (1, 4), (3, 2), (2, 3)]
     mres = []
+    mstop = False
     for (n, w) in mcfgs:
-        lines = ["M 2 200 3", "M 5 200 3"] if quick else ["M 1 300 4", "M 2 300 4", "M 3 300 4", "M 5 300 4"]
-        rc, out, err = core.run_lines(exe, lines, timeout=200, env=core.qenv(n, w, stack=65536), args=["live"])
-        for o in out:
-            m = re.match(r"M Y=(\d+) k=(\d+) starved=(\d) max_yield_latency=([0-9.]+)", o)
-            if m:
-                mres.append({"shepherds": n, "workers_per_shepherd": w, "yielders": int(m.group(1)), "starved": int(m.group(3)),
-                             "max_yield_latency_s": float(m.group(4))})
-    starved = [r for r in mres if r["starved"] or r["max_yield_latency_s"] > 1.0]
-    hist["M"] = len(mres)
-    ctx.cov["mccoy_requeue_starvation_probe"] = {"runs": len(mres), "starved_or_over_1s": len(starved), "worst": max([r["max_yield_latency_s"] for r in mres] or [0])}
-    if starved and core.match_known("C08", "mccoy-requeue-starvation") is not None:
-        ctx.violation("mccoy-requeue-starvation",
-                      "main (REAL_MCCOY) task yielding on a multi-worker shepherd was not run again for %.1f s while tasks busy-waiting with "
-                      "qthread_yield() for it kept running" % max(r["max_yield_latency_s"] for r in starved), {"mode": "live-mccoy", "runs": starved})
+        if mstop:
+            break
+        lines = ["M 1 20 30", "M 2 20 30", "M 5 20 30"] if quick else ["M 1 40 40", "M 2 40 40", "M 3 40 40", "M 5 40 40", "M 9 40 40"] * 2
+        rc, out, err = core.run_lines(exe, lines, timeout=60 + 90 * len(lines), env=core.qenv(n, w, stack=65536), args=["live"])
+        body = [o for o in out if o.startswith("M ")]
+        for i, l in enumerate(lines):
+            evals += 1
+            hist["M"] = hist.get("M", 0) + 1
+            case = {"mode": "live-mccoy", "shepherds": n, "workers_per_shepherd": w, "scenario": l}
+            if i >= len(body):
+                why = "McCoy yield-wait scenario did not finish (watchdog / crash rc=%s)" % rc
+                mismatches.append(("live-mccoy", case))
+                rejects.append(("mccoy-requeue-starvation", why, dict(case, reason=why)))
+                mstop = True
+                break
+            m = re.match(r"M Y=(\d+) k=(\d+) starved=(\d) max_yield_latency=([0-9.]+) total=([0-9.]+) yielder_yields=(\d+) max_bypass=(\d+)", body[i])
+            r = {"shepherds": n, "workers_per_shepherd": w, "yielders": int(m.group(1)), "starved": int(m.group(3)),
+                 "max_yield_latency_s": float(m.group(4)), "max_bypass": int(m.group(7))}
+            mres.append(r)
+            if r["starved"]:
+                why = ("main (REAL_MCCOY) task yielding on a shepherd with %d workers did not get worker 0 back within the rescue time while %d task(s) "
+                       "busy-waiting with qthread_yield() for it performed %s yields" % (w, r["yielders"], m.group(6)))
+                mismatches.append(("live-mccoy", dict(case, output=body[i])))
+                rejects.append(("mccoy-requeue-starvation", why, dict(case, output=body[i], reason=why)))
+                mstop = True
+                break
+            nontrivial += 1
+    ctx.cov["mccoy_yield_wait"] = {"runs": len(mres), "starved": sum(r["starved"] for r in mres),
+                                   "worst_latency_s": max([r["max_yield_latency_s"] for r in mres] or [0]),
+                                   "worst_bypass": max([r["max_bypass"] for r in mres] or [0])}
 
+    phase['live-mccoy'] = round(time.time() - tph[0], 1); tph[0] = time.time()
     # ---------------- verdict
+    ctx.cov["phase_seconds"] = phase
     ctx.cov.update(evaluations=evals, distinct_nontrivial=nontrivial, samples=samples,
                    rule="m1: commands on 1-5 fake shepherds x 1-3 workers, state-aware generator (runs of stealable/unstealable nodes, "
                         "chunk 0/1/2/3/7/100, locked victims, McCoy hand-off, stealing 0/1/2); non-trivial = command that moved a task "
@@ -633,10 +691,9 @@ def run(ctx):
         "pointer layer (next/prev splice) is not modelled in Coq: checked at run time by the two-direction pointer walk after every command",
         "spawn cache, task aggregation, local priority queue, eurekas are compiled out in the configured build and not modelled",
         "OS-level fairness of the worker pthreads (an idle thief eventually gets the CPU) is assumed"]
-    ctx.notes.append("finding (theorem mccoy_requeue_starvation_refuted): on a shepherd with >= 2 workers a worker other than worker 0 that pops the "
-                     "McCoy (main) task holds it between its pop and its re-queue at the head; a yielder running on worker 0 that yields in that "
-                     "window is popped again by worker 0, and the cycle can repeat: main is starved while tasks busy-wait with qthread_yield() "
-                     "for it.  Probe this run: %s" % ctx.cov.get("mccoy_requeue_starvation_probe"))
+    ctx.notes.append("fixed finding mccoy-requeue-starvation: before the fix a worker other than worker 0 popped the McCoy (main) task and re-queued it "
+                     "at the head, which allowed a fair cycle starving main (theorem old_rule_starvation_cycle, regression); the model follows the new "
+                     "rule (dequeue_worker) and mccoy_handover is the positive theorem.  Live yield-wait runs: %s" % ctx.cov.get("mccoy_yield_wait"))
     ctx.notes.append("qthread_yield_near() with an empty ready queue on a single worker never returns (qt_scheduler_get_thread waits for a task "
                      "that cannot come): the model reports HANG for these programs and they are not run on the real code (%d generated)" % nhang)
     broken = bool(mismatches) or not pr["ok"]
